@@ -51,7 +51,7 @@ ASSUME = {
 }
 
 # seconds per shard (plain stage)
-TIME_LIMIT = {"quick": 55, "thorough": 300}
+TIME_LIMIT = {"quick": 55, "thorough": 200}
 
 SANITIZER_PLAN = {
     # property -> tier -> list of stages
@@ -384,7 +384,7 @@ def run_sanitizer_stage(st, prop, tier, seed, root, harness, repo, nproc, work):
             log(msg)
             return None
         per = 60 if tier == "quick" else 150
-        tl = 45 if tier == "quick" else 400
+        tl = 45 if tier == "quick" else 250
         for i in range(nproc):
             out = os.path.join(work, "miri_%02d.json" % i)
             cmds.append(["cargo", "+nightly", "miri", "run", "--offline", "-p", "vh", "--features", "small-tables", "--",
@@ -408,7 +408,7 @@ def run_sanitizer_stage(st, prop, tier, seed, root, harness, repo, nproc, work):
         if not ok:
             log(msg)
             return None
-        tl = 20 if tier == "quick" else 240
+        tl = 20 if tier == "quick" else 150
         bound = 2 if tier == "quick" else 3
         ncfg = 6400 if tier == "quick" else 64000
         for i in range(nproc):
@@ -424,7 +424,7 @@ def run_sanitizer_stage(st, prop, tier, seed, root, harness, repo, nproc, work):
         if not ok:
             log(msg)
             return None
-        tl = 240
+        tl = 150
         for i in range(nproc):
             out = os.path.join(work, "release_%02d.json" % i)
             cmds.append([bin_path(harness, release=True), "run", "--prop", prop, "--tier", tier, "--seed", str(seed + 3000), "--shard", str(i),
